@@ -326,6 +326,11 @@ func check(prop, tier string) int {
 	}
 	for _, id := range kids {
 		fmt.Printf("KNOWN-FINDING: property=%s %s: %s (%d occurrences, e.g. key=%s)\n", prop, id, fdesc[id], len(known[id]), known[id][0].Key)
+		if os.Getenv("PVMC_SHOW_KNOWN") != "" {
+			for _, v := range known[id] {
+				fmt.Fprintf(os.Stderr, "  known %s | %s | %s\n", id, v.Signature, v.Key)
+			}
+		}
 	}
 	for _, l := range lines {
 		fmt.Println(l)
